@@ -336,10 +336,17 @@ func (w *World) classifyExitCond(cond ssa.Value, reads map[*ssa.Call]bool, lp *l
 			return "value", desc
 		}
 	}
-	// counter: a φ of the loop header compared with something
+	// counter: a φ of the loop header (possibly ± a constant: range loops test i+1 < len) compared with something
 	for _, op := range []ssa.Value{bo.X, bo.Y} {
 		if phi, ok := op.(*ssa.Phi); ok && phi.Block() == lp.header {
 			return "counter", desc
+		}
+		if b2, ok := op.(*ssa.BinOp); ok && (b2.Op == token.ADD || b2.Op == token.SUB) {
+			for _, o2 := range []ssa.Value{b2.X, b2.Y} {
+				if phi, ok := o2.(*ssa.Phi); ok && phi.Block() == lp.header {
+					return "counter", desc
+				}
+			}
 		}
 	}
 	// flag: comparison not involving loop-defined values (e.g. tag == const)
